@@ -138,6 +138,17 @@ CHECKS = {
     design_ref="DESIGN.md section 4 / C12",
     technique="Coq proof of parse-after-print for expressions and linear rows + two operator tables regenerated from source + token correspondence + re-compilation oracle on the implementation",
     note="Trusted: Coq kernel + vm_compute; tools/srcparams.py; harness tokenisers and source printer. Number/name/domain rendering and the type checker are not modelled."),
+ "C16": dict(
+    category="proof",
+    text="PARTIAL proof. Proved in Coq for every expression the builder can construct and every real assignment: the builder's translation to the name-based tree (to_exp) commutes with evaluation - the builder's own evaluator "
+         "(eval_expr, used by BuilderSolution::eval) returns exactly the value the language's semantics gives the translated tree, defined exactly when it is; a handle resolves to the value of the variable of that name. "
+         "Tie on every run: every expression of every generated model is built through the public API (operators, helper functions, methods, macros' target constructors), the tree ModelBuilder::into_model produced and the values "
+         "BuilderSolution::eval returns at fixed assignments (through a Solver that returns a given point) must equal the model's. The agreement of the front doors is evaluated on the implementation: builder.linearize() vs text front end "
+         "vs staged pipes row for row (declared-but-unused builder variables kept), four orders of builder calls, and - under a watchdog - the same verdict and optimum from builder/Auto, RoocSolver::solve_using and PipeRunner, "
+         "handle = name values inside the declared domains, eval(objective) = reported value, eval of every constraint satisfied at the solution.",
+    design_ref="DESIGN.md section 4 / C16",
+    technique="Coq proof that translation commutes with evaluation over a hand-written model of the builder + structural/value correspondence + cross-entry-point oracle on the implementation",
+    note=TB + " PipeRunner/RoocSolver/solve_with are compared, not modelled."),
  "C17": dict(
     category="proof",
     text="PARTIAL proof. to_lp_format is modelled at token level (lp_terms, lp_num, lp_bound, sections, generated row names) and an independently written reader of the CPLEX-LP subset lives in Coq. "
